@@ -266,4 +266,41 @@ CLAIMED = {
              "numThreads_ == 0; FQ entry points never call an untagged scheduling function of the same family.",
         note="that the queued task eventually runs is C01",
     ),
+    "C03": dict(
+        technique="monotone-bound rule on the scanned ring count + ordering/reachability rules + ownership typestate on the drains (clang CFG of resizeLocked)",
+        text="The ring count that waiters scan never shrinks (store of rings_.size() or max with the old value), so rings a stale producer can still "
+             "target remain covered; resize stops, wakes, joins, drains both arenas completely, constructs new rings before publishing the count, and "
+             "publishes counts and wake state before starting workers; every drained task runs exactly once.",
+        note="schedule-dependent behaviour beyond the stranded-ring window is not decided",
+    ),
+    "C07": dict(
+        technique="must-pass-through with branch conditions folded by concrete evaluation over a finite family of precondition instances (parked pool), "
+                  "def-use rule on the wake count, constant agreement read from the AST",
+        text="Under the property's precondition (all N workers parked, S tasks submitted; N in {1,2,8,9,64}) every hand-over to a queue/ring is followed "
+             "by a wake on all feasible paths; the count handed to a group futex wake is the population of the full sleep mask; threads-per-steal-ring "
+             "equals threads-per-wake-group. Unevaluable conditions are inconclusive (exit 2).",
+        note="latency itself and the worker-side enter-sleep race are not decided; the claim that toWake >= 1 under the precondition is assumed",
+    ),
+    "C25": dict(
+        technique="finite-state storage-balance analysis of the handle pointer + who-may-construct + loop-bound rules (clang CFG)",
+        text="A Resource handle's pointer is overwritten only when empty or after recycle(); moves null the source on every path; the destructor "
+             "recycles; only acquire() mints handles, one dequeue each; the pool constructs/enqueues exactly size objects and its destructor dequeues and "
+             "destroys exactly size_ before freeing the store.",
+        note="the blocking bound is moodycamel's semaphore (trusted)",
+    ),
+    "C28": dict(
+        technique="slot-accounting must-pass rules (shared with C27) + interval lower bound of StageLimits + structural upper bound of runner counts",
+        text="A resource slot is held for exactly one stage invocation on every path; slot counters start at StageLimits::limit (1 for plain functions, "
+             "max(1, limit) otherwise); serial/unlimited flags derive from it; generator/single-stage runner counts are bounded by the limit.",
+        note="peak concurrency as a measured number is not decided",
+    ),
+    "C39": dict(
+        technique="type witnesses read from instantiated AST (sizeof/alignof of a callable family, chosen storage variant, size-class template arguments, "
+                  "constexpr ordinals) + invoke/move structural rules",
+        text="For 12 callables (1..512 bytes, align 1..256) the inline variant is chosen only when the callable fits the inline buffer and alignment, "
+             "spills use a size class >= size that is a multiple of the alignment, and everything that does not fit spills; size classes map to the "
+             "allocator of that class whose slabs are K-aligned and carved in K steps; operator() runs+destroys, cleanupNotRun only destroys; moves "
+             "copy the whole object.",
+        note="misuse (calling twice) and self-referential callables are outside the contract",
+    ),
 }
